@@ -4,6 +4,7 @@ From Coq Require Import String List NArith Bool Arith.
 From CMinx Require Import Base.Str Extract.Tree
      Model.Lexer Model.Parser Model.Writer Model.DocTypes Model.Aggregator Model.Pipeline
      Model.Path Model.Naming Model.Walk Model.Config Gen.ConfigData
+     Model.CMakeLang Gen.CMinxCMake
      Spec.Projections.
 Import ListNotations.
 
@@ -307,5 +308,12 @@ Definition dispatch_base (fid : nat) (a : list tree) : option tree :=
   | 14 => Some (main_settings (d_str (d_arg 0 a)) (d_list d_str (d_arg 1 a))
                               (d_opt (d_source SrcFile) (d_arg 2 a))
                               (d_opt (d_source SrcUser) (d_arg 3 a)))
+  | 15 => (* cminx_gen_rst(actuals...): [exe; actuals; directories (table for IS_DIRECTORY)] *)
+          let dirs := d_list d_str (d_arg 2 a) in
+          let launches := call (fun p => mem_str p dirs) gen_rst_def
+                               [(s"CMINX_EXECUTABLE", d_str (d_arg 0 a))]
+                               (d_list d_str (d_arg 1 a)) in
+          Some (e_list (fun l => L [e_list e_str (fst l); e_bool (snd l)]) launches)
+  | 16 => Some (e_list e_str (split_list (d_str (d_arg 0 a))))
   | _ => None
   end.
